@@ -537,7 +537,7 @@ NARROW_ROWS = {
 }
 
 
-def x8(ctx, rep, rule="X8"):
+def x8(ctx, rep, rule="X8", files=None, floor=8):
     """An overflow-checked `+` or `*` on an 8- or 16-bit value is a panic in every build that checks overflow (the test and debug
     profiles).  On the analysis path each such operation must be bounded — the inferred upper bounds of its operands keep the
     result inside the type — or be a reviewed row naming what bounds it.  A counter that is stepped once per token of a block is
@@ -549,6 +549,8 @@ def x8(ctx, rep, rule="X8"):
     seen = {}
     for dn in _analysis_defs(F):
         b = F.bodies[dn]
+        if files is not None and b.file not in files:
+            continue
         short = dn.replace(P, "")
         for bb in sorted(b.normal_blocks()):
             t = b.term(bb)
@@ -586,7 +588,7 @@ def x8(ctx, rep, rule="X8"):
             row = NARROW_ROWS.get((short, t["ops"][0], dl, dr))
             rep.add(rule, ("narrow-arithmetic-reviewed:" if row else "narrow-arithmetic-unbounded:") + key, row is not None, b.where(bb),
                     row or "nothing bounds this %d-bit %s: it overflows (panics where overflow is checked) once the value reaches %d" % (mx.bit_length(), "addition" if t["ops"][0] == "Add" else "multiplication", mx))
-    rep.floor(rule, "narrow-arithmetic-sites", n, 8)
+    rep.floor(rule, "narrow-arithmetic-sites", n, floor)
 
 
 _STR_BYTE_OPS = re.compile(r"string::String::(truncate|insert|insert_str|remove|drain|split_off|replace_range)$|str::(split_at|split_at_mut)$")
